@@ -1,6 +1,8 @@
 import Ruint.Lemmas.Radix
 import Ruint.Lemmas.Fmt
 import Ruint.Lemmas.Str
+import Ruint.Lemmas.GenRadixBE
+import Ruint.Lemmas.GenRadixLE
 
 /-!
 # C09 — radix conversion, parsing and formatting agree with positional notation
@@ -299,5 +301,36 @@ example : fmtUint .lowerHex { alt := true, zero := true, width := some 10 } 64 2
   decide +kernel
 example : fmtUint .display { fill := '*', align := some .center, plus := true, width := some 30 } 128 10000000000000000001
     = some "****+10000000000000000001*****".toList := by decide +kernel
+
+/-! ## whole functions regenerated from `src/base_convert.rs` (tools/rs2lean.py, `Gen/WordsRadix.lean`)
+
+`from_base_be`, `from_base_le` and `SpigotLittle::next` as the Rust source defines them — translated on every run — are proved
+equal to the models above for every width, every word base and every word digit string; the driver executes them. An error
+of a generated function is (variant index in the declaration order of `BaseConvertError`, fields): `GenRadixBE.errT`. -/
+
+theorem gen_from_base_be_eq (bits base : ℕ) (digits : List ℕ) (hN : nlimbs bits < 2 ^ 64) (hb : base < 2 ^ 64)
+    (hd : Ruint.AllLt digits) (hl : digits.length < 2 ^ 64) (f : ℕ) (hf : nlimbs bits + digits.length < f) :
+    Ruint.Gen.uint_from_base_be f bits (nlimbs bits) base digits
+      = Ruint.GenRadixBE.mapErr (Ruint.Radix.fromBaseBE bits base digits) :=
+  Ruint.GenRadixBE.from_base_be_eq bits base digits hN hb hd hl f hf
+
+theorem gen_spigot_next_eq (base : ℕ) (limbs : List ℕ) (hb0 : 0 < base) (hb : base < 2 ^ 64) (hl : Ruint.AllLt limbs)
+    (h64 : limbs.length < 2 ^ 64) (f : ℕ) (hf : limbs.length < f) :
+    Ruint.Gen.spigot_next f base limbs
+      = ((Ruint.Radix.spigotNextLimbs base limbs).2, (Ruint.Radix.spigotNextLimbs base limbs).1) :=
+  Ruint.GenRadixBE.spigot_next_eq base limbs hb0 hb hl h64 f hf
+
+/-- the generated `from_base_le` (limb level) refines the value-level model: same error, or a result with the model's value -/
+theorem gen_from_base_le_eq (bits base : ℕ) (digits : List ℕ) (hN : nlimbs bits < 2 ^ 64) (hb : base < 2 ^ 64)
+    (hd : Ruint.AllLt digits) (hl : digits.length < 2 ^ 64) (f : ℕ) (hf : nlimbs bits + digits.length + 1 < f) :
+    Except.map Ruint.val (Ruint.Gen.uint_from_base_le f bits (nlimbs bits) base digits)
+      = Ruint.GenRadixLE.mapErr (Ruint.Radix.fromBaseLE bits base digits) :=
+  Ruint.GenRadixLE.from_base_le_eq bits base digits hN hb hd hl f hf
+
+/-- … and every value it returns is canonical -/
+theorem gen_from_base_le_canon (bits base : ℕ) (digits : List ℕ) (hN : nlimbs bits < 2 ^ 64) (hb : base < 2 ^ 64)
+    (hd : Ruint.AllLt digits) (hl : digits.length < 2 ^ 64) (f : ℕ) (hf : nlimbs bits + digits.length + 1 < f) (r : List ℕ)
+    (h : Ruint.Gen.uint_from_base_le f bits (nlimbs bits) base digits = .ok r) : Ruint.Canon bits r :=
+  Ruint.GenRadixLE.from_base_le_canon bits base digits hN hb hd hl f hf r h
 
 end Ruint.C09
